@@ -272,6 +272,7 @@ def check_property(prop, tier, seed, timeout_s):
         for m in sorted(e.used_models):
             if m not in trusted:
                 trusted.append(m)
+    sensitivity = sensitivity_selftest(prop, seed) if tier == "thorough" and not os.environ.get("VERIF_IN_SELFTEST") else None
     evidence = {
         "property_id": prop, "tier": tier, "seed": seed, "level": "proof",
         "wall_s": round(time.time() - t0, 2), "violations": len(violations),
@@ -293,6 +294,7 @@ def check_property(prop, tier, seed, timeout_s):
                                "agree": sum(1 for o in all_obls if getattr(o, "second", None) == "unsat")}
                               if tier == "thorough" else None),
             "bounded_standins": standins,
+            "sensitivity_selftest": sensitivity,
             "not_decided": spec.get("not_decided", []),
             "known_findings_seen": known_seen,
             "undecided": [{"obligation": n, "why": w[:500]} for n, w in undecided],
@@ -342,6 +344,43 @@ def selfcheck():
     s.add(x > 0, x < 0)
     assert s.check() == z3.unsat
     return 0 if ok else 3
+
+
+def sensitivity_selftest(prop, seed):
+    """thorough tier: does the machinery still notice the property-breaking changes kept under seeded/?  Each kept change of this property
+    is applied to a scratch copy of the CURRENT source (skipped when its patch no longer applies) and the quick check is run against that
+    copy; a change that is not reported is printed as SELFTEST-MISSED.  This tests the checker, not the repository: it never produces a
+    VIOLATION line and never changes the exit code."""
+    import glob
+    import shutil
+    import tempfile
+    out = []
+    for meta in sorted(glob.glob(os.path.join(ROOT, "seeded", "*", "meta.json"))):
+        m = json.load(open(meta))
+        if m.get("breaks_property") != prop:
+            continue
+        patch = os.path.join(os.path.dirname(meta), "patch.diff")
+        d = tempfile.mkdtemp(prefix="pgverif-selftest-")
+        try:
+            shutil.copytree(os.path.join(extract.REPO, "pygamma_agreement"), os.path.join(d, "pygamma_agreement"),
+                            ignore=shutil.ignore_patterns("__pycache__"))
+            ok = subprocess.run(["patch", "-p1", "-s", "-f", "-d", d, "-i", patch], capture_output=True, text=True)
+            if ok.returncode != 0:
+                out.append({"seed": m["seed"], "result": "patch does not apply to the current source: skipped"})
+                continue
+            env = {**os.environ, "VERIF_REPO": d, "VERIF_EVIDENCE_DIR": os.path.join(d, "evidence"), "VERIF_IN_SELFTEST": "1",
+                   "VERIF_TIER": "quick"}
+            p = subprocess.run([sys.executable, "-m", "pyvc.check", prop, "--tier", "quick"], cwd=ROOT, env=env, capture_output=True, text=True,
+                               timeout=3600)
+            failed = [ln.strip()[len("failed obligation: "):] for ln in p.stdout.split("\n") if ln.strip().startswith("failed obligation:")]
+            res = "detected" if p.returncode == 1 else f"MISSED (exit {p.returncode})"
+            out.append({"seed": m["seed"], "result": res, "failed_obligations": failed[:6]})
+            print(f"SELFTEST seed={m['seed']} {res}" + (f" by {failed[0]}" if failed else ""))
+            if p.returncode != 1:
+                print(f"SELFTEST-MISSED seed={m['seed']}: the kept change is no longer reported (a weakness of the checker, not a property violation)")
+        finally:
+            shutil.rmtree(d, ignore_errors=True)
+    return out
 
 
 def main():
